@@ -1027,6 +1027,9 @@ package middleware
 //@ spec failed(i) := (called(BB,i) && ret(BB,i,0) != nil) || (called(HE,i) && ret(HE,i,0))
 //@ ensures [C03:validate] forall i int :: called(VAL,i) ==> called(BB,i) && ret(BB,i,0) == nil && recv(VAL,i) == mapat(o.paramBinders, inloop(0, mapkey(i))).validator
 //@ ensures [C03:validated] forall i int :: called(BB,i) && ret(BB,i,0) == nil && mapat(o.paramBinders, inloop(0, mapkey(i))).validator != nil ==> called(VAL,i)
+// the outcome of every validator that ran is looked at (a validator's non-nil result that reports errors is a failure)
+//@ ensures [C03:validationread] forall i int :: called(VAL,i) && ret(VAL,i,0) != nil ==> called(HE,i) && arg(HE,i,0) == ret(VAL,i,0)
+//@ loop 0 invariant [C03:validationread] forall i int :: called(VAL,i) && ret(VAL,i,0) != nil ==> called(HE,i) && arg(HE,i,0) == ret(VAL,i,0)
 //@ ensures [C03:422] (exists i int :: failed(i)) ==> result != nil && calls(CVE) == 1
 //@ ensures [C03:ok] result != nil ==> calls(CVE) == 1 && len(arg(CVE,0,0)) > 0
 //@ ensures [C03:only422] result != nil ==> exists i int :: failed(i) || (called(IV,i) && !ret(IV,i,0))
